@@ -4,7 +4,8 @@
    "each mutation records exactly the requested change ... and the returned bug reflects it"; without a user nothing
    changes).  Texts are identified by the number of the request that sent them (title k, message k).
 
-   b.status, b.labels, b.title, b.text (one entry per comment: the request whose message it now shows), b.nops.      *)
+   b.status, b.labels, b.title, b.was (the title the last title change recorded as the one it replaced; -1: no title change
+   yet), b.text (one entry per comment: the request whose message it now shows), b.nops.      *)
 EXTENDS Integers, Sequences, FiniteSets
 
 CONSTANTS Labels
@@ -15,7 +16,7 @@ VARIABLES b,     \* the bug
 
 vars == <<b, k, res>>
 
-Init == /\ b = [status |-> "OPEN", labels |-> {}, title |-> 0, text |-> <<0>>, nops |-> 1]
+Init == /\ b = [status |-> "OPEN", labels |-> {}, title |-> 0, was |-> -1, text |-> <<0>>, nops |-> 1]
         /\ k = 0
         /\ res = [refused |-> FALSE, newops |-> 0]
 
@@ -35,7 +36,7 @@ Request(name, auth, i, A, R) ==
                  IF add \cup rem = {} THEN Refuse ELSE Done(1, [b EXCEPT !.labels = (@ \cup add) \ rem])
             [] name = "openBug"             -> Done(1, [b EXCEPT !.status = "OPEN"])
             [] name = "closeBug"            -> Done(1, [b EXCEPT !.status = "CLOSED"])
-            [] name = "setTitle"            -> Done(1, [b EXCEPT !.title = k + 1])
+            [] name = "setTitle"            -> Done(1, [b EXCEPT !.title = k + 1, !.was = b.title])   \* the operation records what it replaces
             [] name = "editCommentAmbiguous" -> Refuse          \* a prefix shared by several comments designates none of them
             [] name = "setTitleEmpty"       -> Refuse           \* ill-formed: an empty title
             [] name = "unknownBug"          -> Refuse           \* any mutation addressing a bug that does not exist
